@@ -23,7 +23,7 @@ import (
 
 var rec = ev.For("C22", "exploration",
 	"random multi-series datasets (1-4 shard groups, 1-4 write batches with snapshots/compaction/reopen, overwrites, shared timestamps) "+
-		"and random queries of the InfluxQL subset (about a quarter of them with 2-4 calls in one statement over fields with different coverage) rendered to text and parsed by the real parser; NON-TRIVIAL = data in >=2 shards, "+
+		"and random queries of the InfluxQL subset (about a quarter of them with 2-4 calls in one statement over fields with different coverage and about one in seven a lone MIN()/MAX() selector over data with repeated extreme values) rendered to text and parsed by the real parser; NON-TRIVIAL = data in >=2 shards, "+
 		"query with GROUP BY time and a fill mode other than none or with LIMIT/OFFSET, non-empty expected result; DISTINCT by (dataset, query text)")
 
 const (
@@ -300,7 +300,7 @@ func TestPropSelect(t *testing.T) {
 	rec.Assume("a comparison with a field the point does not have is false, for every operator including != and !~")
 	rec.Assume("series are matched by tag set, not by position; with SLIMIT/SOFFSET the window is taken over series in ascending order of their GROUP BY tag values (also accepted: descending order under ORDER BY time DESC)")
 	rec.Assume("rows of one output series with equal timestamps (merged input series) may come in any order; LIMIT/OFFSET may cut such a run anywhere")
-	rec.Assume("selector ties (equal extreme values; equal timestamps for first/last) may be resolved to any tied point")
+	rec.Assume("MIN()/MAX() ties (the extreme value occurs more than once in the group or interval): the tied point with the earliest timestamp is the selected one (its time and tag columns are returned), independently of ORDER BY and of the order in which shards and series are read - the rule the documentation gives for TOP()/BOTTOM(), of which MAX()/MIN() are the N=1 case, and the one influxql/query's Min/Max reducers state; tied points that also share that timestamp (different series), and points with equal timestamps for FIRST()/LAST(), may be resolved to any of them")
 	rec.Assume("floats produced by sum/mean/fill(linear) are compared with relative tolerance 1e-9; integer fill(linear) may round either way")
 	rec.Assume("not generated (classes dropped:*): selector with tag columns under fill(value|previous|linear); fill(value|linear) for string/boolean results; OFFSET together with SLIMIT/SOFFSET; conditions on a field that no shard in the queried range knows (the engine then treats the name like a missing tag, i.e. '', which the documentation does not cover); several calls of which one is on a field that no shard in the queried range knows; the same call twice in one statement; calls mixed with fields or tags when there are several calls; min/max of strings and booleans")
 	rec.Assume("several calls in one statement: every call is evaluated on its own over the points that have its field and the rows are joined on time; a selector then reports the interval start (lower bound of the range / epoch 0 without GROUP BY time) instead of the time of its point; under fill(none) an interval is reported when at least one call has data in it; where only another call has a row a call shows null (the number under fill(<number>); COUNT(): 0 or null, both accepted); LIMIT/OFFSET count joined rows; a function occurring twice is told apart by aliases")
@@ -350,6 +350,24 @@ func TestPropSelect(t *testing.T) {
 						rec.Class("multi-call:misaligned-calls:order-desc")
 					} else {
 						rec.Class("multi-call:misaligned-calls:order-asc")
+					}
+				}
+			}
+			if res.MinMaxTies > 0 {
+				// the extreme value of a MIN()/MAX() occurs more than once; "decided": the tied points differ
+				// in what the row shows (time of the point, tag columns), so the earliest-point rule is asserted
+				rec.Class("minmax-tie")
+				if res.MinMaxTiesDecided > 0 {
+					rec.Class("minmax-tie:decided-by-earliest-time")
+					rec.Class("minmax-tie:decided:" + q.Proj[0].Func)
+					if q.Desc {
+						rec.Class("minmax-tie:decided:order-desc")
+					}
+					if res.MinMaxTiesAcrossSeries > 0 {
+						rec.Class("minmax-tie:decided:across-merged-series")
+					}
+					if q.Interval > 0 {
+						rec.Class("minmax-tie:decided:groupby-time-tag-columns")
 					}
 				}
 			}
